@@ -114,7 +114,8 @@ def _run(ctx):
                            ("formulas.formula_grammar.convert_by_volume", "formulas._mix_by_volume_pairs"),
                            ("formulas.formula_grammar.convert_by_layer", "formulas._mix_by_volume_pairs"),
                            ("formulas.formula_grammar.convert_by_absmass", "formulas._mix_by_weight_pairs")):
-        ctx.check(cg.has_edge(caller, callee), "R2", f"{caller.split('.')[-1]} -> {callee.split('.')[-1]}",
+        import networkx as nx
+        ctx.check(caller in cg and callee in cg and nx.has_path(cg, caller, callee), "R2", f"{caller.split('.')[-1]} -> {callee.split('.')[-1]}",
                   f"{caller} no longer delegates to {callee}", fsite(ctx, caller))
     # the call forms: argument handling
     for mode in ("weight", "volume"):
@@ -227,15 +228,16 @@ def _run(ctx):
                     and len(node.args) >= 2 and isinstance(node.args[1], ast.Constant):
                 written.add(node.args[1].value)
     nread = 0
+    container_methods = set(dir(list)) | set(dir(dict)) | set(dir(str)) | set(dir(tuple))
     for name in ("convert_by_weight", "convert_by_volume", "convert_by_layer", "convert_by_absmass", "convert_mixture", "convert_compound"):
         f = ctx.src.func(f"formulas.formula_grammar.{name}")
         for node in ast.walk(f.node):
             if isinstance(node, ast.Attribute) and isinstance(node.ctx, ast.Load) and isinstance(node.value, ast.Name) \
-                    and node.value.id in ("p1", "p2", "p", "formula", "result"):
+                    and node.attr not in container_methods:
                 nread += 1
-                ctx.check(node.attr in written, "R4", f"{name}: attribute .{node.attr} read on a formula has a writer in the package",
+                ctx.check(node.attr in written, "R4", f"{name}: attribute .{node.attr} read on {node.value.id} has a writer in the package",
                           f".{node.attr} is read but nothing in the package ever sets it", fsite(ctx, f.qual))
-    ctx.floor("R4", 3)
+    ctx.floor("R4", 1)
 
     # ---- R5 unit tables -------------------------------------------------------------
     F = folder(ctx)
